@@ -36,7 +36,7 @@ impl Ctl {
     /// wait until thread t is blocked at a hook point or finished
     fn settle(&self, t: usize) -> Option<St> {
         let g = self.m.lock().unwrap();
-        let (g, to) = self.cv.wait_timeout_while(g, Duration::from_secs(10), |s| !matches!(s.st[t], St::Waiting(_) | St::Done)).unwrap();
+        let (g, to) = self.cv.wait_timeout_while(g, Duration::from_secs(180), |s| !matches!(s.st[t], St::Waiting(_) | St::Done)).unwrap();
         if to.timed_out() { None } else { Some(g.st[t]) }
     }
     fn release(&self, t: usize, force: bool) { let mut g = self.m.lock().unwrap(); g.go[t] = Some(force); g.st[t] = St::Running; self.cv.notify_all(); }
